@@ -17,6 +17,23 @@ P = {
              "orders and every accessor the builders/converters return are recorded from the code and judged by the trace spec.",
         tech="TLC exhaustive model checking of DeBruijn.tla + spec->code replay of exported tables + code->spec trace validation",
         ref="5/C13"),
+    "C15": dict(
+        spec="Bignum, MC_Bignum, Trace_Bignum, Ind_Mul, Ind_Div, Ind_Add",
+        text="The four decimal-string helpers are transcribed as digit-serial machines shaped like the code; TLC steps them one "
+             "loop iteration per action for every canonical string up to 3 (5 thorough) digits x operand 0..9, checking the "
+             "carry/remainder refinement in every intermediate state and exactness at the end; every exported behaviour is "
+             "replayed into calculus_*; seeded strings up to 1300 digits (carry and borrow chains) recorded from the code are "
+             "re-computed by the machines; the multiply/divide/add steps are additionally inductive for unbounded values (Apalache).",
+        tech="TLC model checking of digit-serial machines + exhaustive replay + trace validation of long inputs + Apalache inductive step lemmas",
+        ref="5/C15"),
+    "C16": dict(
+        spec="Bignum (conversions), MC_Conv, Trace_Bignum",
+        text="TLC checks on the machine-built conversions that the string and int paths agree, that rendering and parsing are "
+             "inverse and that wider renderings are left-padded, for every bit sequence up to 10 (14) and DNA string up to 6 (8); "
+             "all exported values are replayed into the four conversion functions (lists and numpy arrays, both paths); seeded "
+             "sequences to 4096 bits / 2048 nt recorded from the code are judged by the trace spec.",
+        tech="TLC model checking of conversion operators + exhaustive replay + trace validation of long inputs",
+        ref="5/C16"),
 }
 
 NOT_YET = "check not built yet in this round (work in progress; see DESIGN.md section 5 for the planned procedure)"
